@@ -986,7 +986,9 @@ def stepCore (st : St) (op impl : List String) : St × Verdict :=
     match impl with
     | ["ok"] => (st, .ok)
     | [x] =>
-      if x.startsWith "bad:" then
+      if x.startsWith "bad:token:" then
+        (st, .oracle s!"C16,C18: {w} concurrent PUTs of one stateful token through the real handler, all with If-Match on the same tag of the token file: {x}")
+      else if x.startsWith "bad:" then
         (st, .oracle s!"C18: {w} concurrent writers through the real handler, all holding the same tag: {x}")
       else (st, .badop s!"race: {x}")
     | _ => (st, .badop "race result")
